@@ -122,27 +122,28 @@ type Found struct {
 
 // Stats per (scenario, seed).
 type Stats struct {
-	Scenario        string           `json:"scenario"`
-	Seed            string           `json:"seed"`
-	Alphabet        int              `json:"alphabet"`
-	DepthTarget     int              `json:"depth_target"`
-	DepthCompleted  int              `json:"depth_completed"`
-	States          int64            `json:"states"`
-	Transitions     int64            `json:"transitions"`
-	Succeeded       int64            `json:"succeeded"`
-	Failed          int64            `json:"failed"`
-	Panics          int64            `json:"panics"`
-	Revalidated     int64            `json:"paths_revalidated_on_fresh_instance"`
-	Divergences     []string         `json:"replay_divergences,omitempty"`
-	PerEvent        map[string][2]int64 `json:"per_event_ok_fail"`
-	PerType         map[string][2]int64 `json:"per_msg_type_ok_fail"`
-	Counters        map[string]int64 `json:"monitor_counters"`
-	Vacuity         []string         `json:"vacuity_warnings,omitempty"`
-	Exhaustive      bool             `json:"exhaustive"`
-	LayerSizes      []int            `json:"layer_sizes"`
-	WallS           float64          `json:"wall_s"`
-	PanicSamples    []string         `json:"panic_samples,omitempty"`
-	Samples         []json.RawMessage `json:"-"`
+	Scenario       string              `json:"scenario"`
+	Seed           string              `json:"seed"`
+	Alphabet       int                 `json:"alphabet"`
+	DepthTarget    int                 `json:"depth_target"`
+	DepthCompleted int                 `json:"depth_completed"`
+	States         int64               `json:"states"`
+	Transitions    int64               `json:"transitions"`
+	Succeeded      int64               `json:"succeeded"`
+	Failed         int64               `json:"failed"`
+	Panics         int64               `json:"panics"`
+	Revalidated    int64               `json:"paths_revalidated_on_fresh_instance"`
+	Divergences    []string            `json:"replay_divergences,omitempty"`
+	PerEvent       map[string][2]int64 `json:"per_event_ok_fail"`
+	PerType        map[string][2]int64 `json:"per_msg_type_ok_fail"`
+	Counters       map[string]int64    `json:"monitor_counters"`
+	Vacuity        []string            `json:"vacuity_warnings,omitempty"`
+	Exhaustive     bool                `json:"exhaustive"`
+	LayerSizes     []int               `json:"layer_sizes"`
+	WallS          float64             `json:"wall_s"`
+	PanicSamples   []string            `json:"panic_samples,omitempty"`
+	SeedError      string              `json:"seed_error,omitempty"`
+	Samples        []json.RawMessage   `json:"-"`
 }
 
 type node struct {
@@ -296,15 +297,30 @@ func Run(sc *Scenario, seed Seed, cfg Config) (*Stats, []Found) {
 
 	ws := make([]*worker, cfg.Workers)
 	var wg sync.WaitGroup
+	var seedErr atomic.Value
 	for i := range ws {
 		wg.Add(1)
 		go func(i int) {
 			defer wg.Done()
+			defer func() {
+				if r := recover(); r != nil {
+					seedErr.Store(fmt.Sprint(r))
+				}
+			}()
 			c := chain.New(seed.Opts)
 			ws[i] = &worker{c: c, seed: seed.Build(c), mons: sc.Monitors()}
 		}(i)
 	}
 	wg.Wait()
+	if e := seedErr.Load(); e != nil {
+		// The seed state could not be built on this tree (a seed message that
+		// used to succeed now fails). Nothing was explored from this seed: no
+		// verdict, reported as such.
+		st.SeedError = e.(string)
+		st.Vacuity = append(st.Vacuity, "seed could not be built: "+st.SeedError)
+		st.WallS = time.Since(start).Seconds()
+		return st, nil
+	}
 	k0 := ws[0].c.StateKey(ws[0].seed, nil)
 	for _, w := range ws[1:] {
 		if w.c.StateKey(w.seed, nil) != k0 {
